@@ -8,6 +8,7 @@ pub enum Step {
     Send(Id),
     TrySend(Id),
     SendBatch(Vec<Id>),
+    TrySendBatch(Vec<Id>),
     DropTx,
     Recv,
     TryRecv,
@@ -87,6 +88,14 @@ fn run_thread(t: u8, prog: ThreadProg, mut tx: Option<Box<dyn Tx>>, mut rx: Opti
                 rt::log_call(t, th, &op);
                 let v: Vec<P> = ids.iter().map(|&i| P::new(i)).collect();
                 let r = s.send_batch(v);
+                rt::log_ret(t, th, &op, r, true);
+            }
+            Step::TrySendBatch(ids) => {
+                let s = tx.as_mut().expect("tx");
+                let op = Op::TrySendBatch(ids.clone());
+                rt::log_call(t, th, &op);
+                let v: Vec<P> = ids.iter().map(|&i| P::new(i)).collect();
+                let r = s.try_send_batch(v);
                 rt::log_ret(t, th, &op, r, true);
             }
             Step::DropTx => drop_tx(t, th, &mut tx),
